@@ -245,3 +245,8 @@ example : DirtyIgnoresMuP { constLib with usEllipsoid := fun _ _ _ _ _ _ _ => (0
 end Examples
 
 end TamocV.Props.C09
+
+#print axioms TamocV.Props.C09.return_all_eq_individual
+#print axioms TamocV.Props.C09.return_all_eq_individual_partial
+#print axioms TamocV.Props.C09.inert_return_all_eq_individual
+#print axioms TamocV.Props.C09.not_return_all_eq_individual
